@@ -11,7 +11,8 @@ from checks import c19
 
 HASHSEEDS = ["0", "1", "2", "3", "random"]
 CONT = simruns.SIR_CONT + simruns.SIS_CONT + ["simple_contagion_tuple_statuses", "simple_contagion_many_statuses", "simple_contagion_directed",
-                                               "fast_SIR+R0", "Gillespie_SIR+R0", "fast_nonMarkov_SIR+R0"]
+                                               "fast_SIR+R0", "Gillespie_SIR+R0", "fast_nonMarkov_SIR+R0",
+                                               "fast_SIR+R0default", "fast_nonMarkov_SIR+R0default", "Gillespie_SIR+R0default"]
 
 
 def worker(tier, seed, hs):
@@ -99,6 +100,8 @@ def main():
             rows, what = [], []
             add(base[mode], "first seeded call")
             add(base[mode + ":repeat"], "repeated seeded call in the same process")
+            if mode + ":after-abort" in base:
+                add(base[mode + ":after-abort"], "repeated seeded call after another run was aborted by an exception")
             if sc["sim"] in CONT:
                 for hs in HASHSEEDS[1:]:
                     add(results[hs][sid][mode], "PYTHONHASHSEED=%s" % hs)
